@@ -145,13 +145,14 @@ def build(inst, pal):
     if extra:
         model.add_cons_vars(extra)
         model.solver.update()
-    tokens = {}
+    # column tokens per space (a forward variable carries the reaction's own id)
+    tokens = {True: {}, False: {}}
     for k, r in enumerate(rx):
-        tokens[r.id] = "v%d" % (k + 1)
-        tokens[r.forward_variable.name] = "f%d" % (k + 1)
-        tokens[r.reverse_variable.name] = "r%d" % (k + 1)
+        tokens[True][r.id] = "v%d" % (k + 1)
+        tokens[False][r.forward_variable.name] = "f%d" % (k + 1)
+        tokens[False][r.reverse_variable.name] = "r%d" % (k + 1)
     if z is not None:
-        tokens[z.name] = "z"
+        tokens[False][z.name] = "z"
     return model, tokens
 
 
@@ -219,7 +220,7 @@ def drive_case(item, progress=None):
                "pf": [["-"] for _ in probes], "pv": [["-"] for _ in probes], "msg": "-"}
         if outcome == "ok":
             vals = np.asarray(df.values, dtype=float)
-            run["cols"] = [tokens.get(str(c), "?") for c in df.columns]
+            run["cols"] = [tokens[bool(cfg["fluxes"])].get(str(c), "?") for c in df.columns]
             run["rows"] = [[fx(x) for x in row] for row in vals]
             run["digest"] = hashlib.sha1(vals.tobytes()).hexdigest()[:20]
             v = s
